@@ -518,6 +518,36 @@ def part_decorate(ctx, shard):
 
             stacked.append(("returns-over-accepts-over-accepts", lambda: s4(a=val, b=tq), ok))
             stacked.append(("returns-over-accepts-over-accepts-inner-violated", lambda: s4(a=val, b=lq), False))
+            # signatures with *args, keyword-only parameters and local names that coincide with a checked name
+            oth = lq if dim is udims.time or dim == udims.time else tq
+
+            @accepts(scale=dim)
+            def g1(x, *more, scale):
+                return sentinel
+
+            stacked.append(("varargs-then-keyword-only", lambda: g1(oth, oth, scale=val), ok))
+            stacked.append(("varargs-then-keyword-only-violated", lambda: g1(val, val, scale=oth), False))
+
+            @accepts(a=dim, tmp=dim)
+            def g2(a, *rest):
+                tmp = 1  # noqa: F841 - a local that shares its name with a checked (absent) argument
+                return sentinel
+
+            stacked.append(("surplus-positionals-vs-local-name", lambda: g2(val, oth, oth), ok))
+
+            @accepts(k=dim)
+            def g3(a, *, k):
+                return sentinel
+
+            stacked.append(("keyword-only", lambda: g3(oth, k=val), ok))
+            stacked.append(("keyword-only-violated", lambda: g3(val, k=oth), False))
+
+            @accepts(b=dim)
+            def g4(a, b=None, **extra):
+                return sentinel
+
+            stacked.append(("var-keywords", lambda: g4(oth, val, c=oth), ok))
+            stacked.append(("var-keywords-violated", lambda: g4(val, b=oth, c=val), False))
             for uname, call, want_ok in stacked:
                 ctx.count("evaluations")
                 try:
